@@ -228,6 +228,19 @@ def _equiv(lin, got_expr: ast.AST, want_text: str, at=None) -> bool:
     return implies(a, b) and implies(b, a)
 
 
+def _guard_in_loop_is(lin, g, want_text: str) -> bool:
+    """Is the guard of g, relative to the entry of its innermost loop body, equivalent to `want_text`?
+    (Independent of how the conditions are spread over nested ifs.)"""
+    from ..astx import f_and
+
+    if not g.loops:
+        return False
+    body0 = lin.of(g.loops[-1].body[0])
+    want = lin.cond_at(g, ast.parse(want_text, mode="eval").body)
+    full = f_and(body0.guard, want)
+    return implies(g.guard, full) and implies(full, g.guard)
+
+
 @rule("C03.16", ["C03", "C06"], "edge filters of join and of return-edge bookkeeping are exactly the stated predicates (test-suite-surviving mutants)", 7)
 def c03_16(ctx: Ctx):
     repo = ctx.repo
@@ -250,21 +263,16 @@ def c03_16(ctx: Ctx):
     ljb = linear(jb.node)
     disc = [g for g, c in ljb.all_calls() if src(c) == "ir.cfg.discard(in_edge)"]
     first = [g for g in disc if any("_is_fallthrough_edge(in_edge)" in a for a in _atoms(g.guard))]
-    ok = len(first) == 1
-    if ok:
-        ifs = [x for x in ljb.stmts if isinstance(x.node, ast.If) and x.index < first[0].index and "_is_fallthrough_edge(in_edge)" in src(x.node.test)]
-        ok = bool(ifs) and _equiv(ljb, ifs[-1].node.test, "_is_fallthrough_edge(in_edge) and in_edge.source is block1")
+    ok = len(first) == 1 and _guard_in_loop_is(ljb, first[0], "_is_fallthrough_edge(in_edge) and in_edge.source is block1")
     ctx.check(ok, jb, first[0].node if first else jb.node, "join_blocks drops exactly the fallthrough that connected block1 to block2",
               "the connecting-edge test changed: other incoming edges of block2 are dropped with it (or the connecting fallthrough survives as a self-loop of the joined block)",
               key="join_blocks::connecting-fallthrough")
     fe = repo.func("_modify.edges.add_return_edges_to_callee")
     le = linear(fe.node)
     skips = [g for g in le.stmts if isinstance(g.node, ast.Continue)]
-    ifs = [x for x in le.stmts if isinstance(x.node, ast.If) and skips and any(s is skips[0].node for s in ast.walk(x.node))]
-    ok = len(skips) == 1 and bool(ifs) and _equiv(le, ifs[-1].node.test,
-                                                 "not cache.return_cache.any_return_edges(block) and not any((_is_return_edge(edge) for edge in cfg.out_edges(block)))")
+    ok = len(skips) == 1 and _guard_in_loop_is(le, skips[0], "not cache.return_cache.any_return_edges(block) and not any((_is_return_edge(edge) for edge in cfg.out_edges(block)))")
     ctx.check(ok, fe, skips[0].node if skips else fe.node, "a block is skipped exactly when it returns neither in the IR nor in the patch CFG so far",
-              f"skip test is `{src(ifs[-1].node.test)[:120] if ifs else '?'}`", key="add_return_edges_to_callee::skip-test")
+              f"skip condition is `{f_show(skips[0].guard)[:140] if skips else '?'}`", key="add_return_edges_to_callee::skip-test")
     fr = repo.func("_modify.edges.remove_return_edges_from_callee")
     lr = linear(fr.node)
     sets = [g for g in lr.stmts if isinstance(g.node, ast.Assign) and src(g.node.targets[0]) == "remaining_edges"]
@@ -317,8 +325,8 @@ def c18_8(ctx: Ctx):
     r = [g for g in ld.stmts if isinstance(g.node, ast.Raise) and "retarget_to_proxy can only be specified" in src(g.node)]
     ok = len(r) == 1
     if ok:
-        ifs = [x for x in ld.stmts if isinstance(x.node, ast.If) and any(s is r[0].node for s in ast.walk(x.node))]
-        ok = bool(ifs) and _equiv(ld, ifs[-1].node.test, "retarget_to_proxy and (offset != 0 or length != block.size)")
+        want = ld.cond_at(r[0], ast.parse("retarget_to_proxy and (offset != 0 or length != block.size)", mode="eval").body)
+        ok = implies(r[0].guard, want) and implies(want, r[0].guard)
     ctx.check(ok, da, r[0].node if r else da.node, "retarget_to_proxy with anything but the whole block is refused with ValueError", "the validation of partial proxy deletions changed: such a request is accepted (or whole-block proxy deletions are refused)",
               key="delete_at::partial-proxy-refused")
     seh = repo.func("_modify.remove._update_pe_safe_seh")
